@@ -282,3 +282,21 @@ package executor
 //@   requires pb != nil
 //@   call NewLogicalLimit
 //@     requires [limit_operator_rebuilt_from_the_shipped_numbers] arg2.Limit == pb.Limit && arg2.Offset == pb.Offset && arg2.LimitType == pb.LimitType
+
+// fill(previous) carries, per column, the last non-null value of the chunk just processed into the next chunk of the
+// same series. For a string column that is value number (rows - nulls - 1): it is carried whenever the column holds AT
+// LEAST ONE value - also when that one value is value number 0 (a column with a single non-null string): otherwise the
+// answer depends on where the chunk boundary falls.
+//@ prop C08
+//@ func updateStringPrevValuesFunc
+//@   ghost n int = 0
+//@   ghost nc int = 0
+//@   ghost took bool = false
+//@   call .Length
+//@     set n = ret0
+//@   call .NilCount
+//@     set nc = ret0
+//@   call .StringValue
+//@     requires [the_last_non_null_value] arg0 == n - nc - 1
+//@     set took = true
+//@   ensures [carried_whenever_the_column_holds_a_value] n - nc >= 1 ==> took
